@@ -274,9 +274,22 @@ def St.init : St := {}
 def validT (t : Nat) : Bool := 1 ≤ t && t ≤ 14
 
 /-- one line → (state, model output, spec output) -/
+/-- `biglen <remlen>`: a QoS 0 PUBLISH with that remaining length (topic "a"), too large to travel as hex:
+the model's `hdrLen` / `putUvarint`, the specification's `Wire.varint` -/
+def bigLenLine (hdr : Nat → Nat) (vi : Nat → Bytes) (rl : Nat) : String :=
+  let l := hdr rl + rl
+  s!"len={l} enc=ok n={1 + (vi rl).length + rl} head={hexOf (0x30 :: vi rl)} rt=1 exact=ok"
+
 def handle (st : St) (ws : List String) : St × String × String :=
   match ws with
   | ["reset"] => (St.init, "reset", "reset")
+  | ["biglen", r] =>
+    match r.toNat? with
+    | some rl =>
+      if rl < 3 || rl > 8388608 then (st, "bad-op", "bad-op") else
+      (st, bigLenLine Mqtt.Model.Codec.hdrLen Mqtt.Model.Codec.putUvarint rl,
+           bigLenLine (fun n => 1 + (Mqtt.Spec.Wire.varint n).length) Mqtt.Spec.Wire.varint rl)
+    | none => (st, "bad-op", "bad-op")
   | _ =>
     match parseOp ws with
     | none => (st, "bad-op", "bad-op")
